@@ -409,7 +409,12 @@ def _resolve_import(rule, target):
 
     # adjust relative URI references
     log.info('@import: Adjusting paths for %r' % rule.href, neverraise=True)
-    replaceUrls(importedSheet, Replacer(rule.href))
+    replacer = Replacer(rule.href)
+    replaceUrls(importedSheet, replacer, ignoreImportRules=True)
+    for r in importedSheet:
+        if r.type == r.IMPORT_RULE:
+            # a kept @import: re-base it too, without loading its target again
+            r._href = replacer(r.href)
 
     try:
         media_proxy = _check_media_proxy(rule, importedSheet)
